@@ -46,9 +46,9 @@ func (v mapSliceValue) IndexValue(index Value) Value {
 }
 
 func (v mapSliceValue) PropertyValue(index Value) Value {
-	result := v.IndexValue(index)
-	if result == nilValue && index.Interface() == sizeKey {
-		result = ValueOf(len(v.slice))
+	// the entry count stands in for "size" only when there is no such key
+	if index.Interface() == sizeKey && !v.Contains(index) {
+		return ValueOf(len(v.slice))
 	}
-	return result
+	return v.IndexValue(index)
 }
